@@ -18,6 +18,7 @@ MSG_KINDS = [
     (r"^Function .* requires (\d+) arguments?, but got (\d+)", lambda m: "arity %s %s" % m.groups()),
     (r"^Closure expects (\d+) arguments?, but got (\d+)", lambda m: "arity %s %s" % m.groups()),
     (r"^Tried to divide .* by zero", lambda m: "div-zero"),
+    (r"^Integer overflow on dividing", lambda m: "div-overflow"),
     (r"^Tried to calculate the remainder", lambda m: "mod-zero"),
     (r"^Cannot raise an integer to a negative power", lambda m: "neg-pow"),
     (r"^Exponent is too large", lambda m: "pow-too-large"),
